@@ -535,6 +535,7 @@ int cif_loop_get_packets(
     if (!temp_it) {
         SET_RESULT(CIF_MEMORY_ERROR);
     } else {
+        struct set_element_s *element = NULL;
         int result;
 
         /* initialize to NULL so we can later recognize where cleanup is needed */
@@ -552,10 +553,12 @@ int cif_loop_get_packets(
 #undef uthash_fatal
 #define uthash_fatal(msg) FAIL(soft, CIF_MEMORY_ERROR)
             for (name = temp_it->item_names; *name; name += 1) {
-                struct set_element_s *element = (struct set_element_s *) malloc(sizeof(struct set_element_s));
+                element = (struct set_element_s *) malloc(sizeof(struct set_element_s));
 
                 if (element) {
                     HASH_ADD_KEYPTR(hh, temp_it->name_set, *name, U_BYTES(*name), element);
+                    /* the set now owns the element */
+                    element = NULL;
                 } else {
                     FAIL(soft, CIF_MEMORY_ERROR);
                 }
@@ -586,7 +589,8 @@ int cif_loop_get_packets(
         }
 
         FAILURE_HANDLER(soft):
-        /* clean up everything */
+        /* clean up everything, including an element that could not be added to the name set */
+        free(element);
         cif_pktitr_free(temp_it);
     }
 
